@@ -117,24 +117,54 @@ theorem list_range_sum (n : ℕ) (g : ℕ → ℂ) : ((List.range n).map g).sum 
 theorem sumRange_toC (n : ℕ) (f : ℕ → GQ) : (sumRange n f).toC = ∑ k : Fin n, (f k).toC := by
   rw [sumRange, foldl_add_toC, GQ.toC_zero, zero_add, list_range_sum n fun k => (f k).toC]
 
-theorem conjRow_getD (ψ : Array GQ) (P : Mat) (j : ℕ) (hj : j < P.m) :
-    (conjRow ψ P).getD j 0 = sumRange ψ.size fun i => (ψ.getD i 0).conj * P.get i j := by
-  simp [conjRow, Array.getD_eq_getD_getElem?, hj]
+/-- bridging facts over the generated flags: the left state factor is conjugated, the right one is not -/
+theorem cj_left (z : GQ) : cj QibGen.Vqe.expectConjLeft z = z.conj := rfl
+theorem cj_right (z : GQ) : cj QibGen.Vqe.expectConjRight z = z := rfl
 
-theorem conjRow_size (ψ : Array GQ) (P : Mat) : (conjRow ψ P).size = P.m := by simp [conjRow]
+theorem rowVec_getD (ψ : Array GQ) (P : Mat) (j : ℕ) (hj : j < P.m) :
+    (rowVec ψ P).getD j 0 = sumRange ψ.size fun i => (ψ.getD i 0).conj * P.get i j := by
+  simp [rowVec, Array.getD_eq_getD_getElem?, hj, cj_left]
 
-/-- the model's two-step product is `ψ† P ψ` (Mathlib's `star ψ ⬝ᵥ P *ᵥ ψ`) -/
-theorem expectRaw_toC (d : ℕ) (ψ : Array GQ) (P : Mat) (hψ : ψ.size = d) (hP : P.m = d) :
-    (expectRaw ψ P).toC = VqeLemmas.ev (vecC d ψ) (P.toM d) := by
+theorem rowVec_size (ψ : Array GQ) (P : Mat) : (rowVec ψ P).size = P.m := by simp [rowVec]
+
+theorem colVec_getD (ψ : Array GQ) (P : Mat) (i : ℕ) (hi : i < P.n) :
+    (colVec ψ P).getD i 0 = sumRange ψ.size fun j => P.get i j * ψ.getD j 0 := by
+  simp [colVec, Array.getD_eq_getD_getElem?, hi, cj_right]
+
+theorem colVec_size (ψ : Array GQ) (P : Mat) : (colVec ψ P).size = P.n := by simp [colVec]
+
+/-- `(ψ† P) ψ` -/
+theorem expectLF_toC (d : ℕ) (ψ : Array GQ) (P : Mat) (hψ : ψ.size = d) (hP : P.m = d) :
+    (expectLF ψ P).toC = VqeLemmas.ev (vecC d ψ) (P.toM d) := by
   subst hψ
   rw [VqeLemmas.ev_two_step]
-  simp only [expectRaw, conjRow_size, hP, sumRange_toC, dotProduct, vecMul, Pi.star_apply, Complex.star_def]
+  simp only [expectLF, rowVec_size, hP, sumRange_toC, dotProduct, vecMul, Pi.star_apply, Complex.star_def]
   refine Finset.sum_congr rfl fun j _ => ?_
-  rw [GQ.toC_mul, conjRow_getD ψ P j (by rw [hP]; exact j.isLt), sumRange_toC]
+  rw [GQ.toC_mul, rowVec_getD ψ P j (by rw [hP]; exact j.isLt), sumRange_toC, cj_right]
   congr 1
   refine Finset.sum_congr rfl fun i _ => ?_
   rw [GQ.toC_mul, GQ.toC_conj]
   rfl
+
+/-- `ψ† (P ψ)` -/
+theorem expectRF_toC (d : ℕ) (ψ : Array GQ) (P : Mat) (hψ : ψ.size = d) (hP : P.n = d) :
+    (expectRF ψ P).toC = VqeLemmas.ev (vecC d ψ) (P.toM d) := by
+  subst hψ
+  simp only [VqeLemmas.ev, expectRF, colVec_size, hP, sumRange_toC, dotProduct, mulVec, Pi.star_apply, Complex.star_def]
+  refine Finset.sum_congr rfl fun i _ => ?_
+  rw [GQ.toC_mul, colVec_getD ψ P i (by rw [hP]; exact i.isLt), sumRange_toC, cj_left, GQ.toC_conj]
+  congr 1
+  refine Finset.sum_congr rfl fun j _ => ?_
+  rw [GQ.toC_mul]
+  rfl
+
+/-- the model's product, in whichever order the source forms it, is `ψ† P ψ` (Mathlib's `star ψ ⬝ᵥ P *ᵥ ψ`) -/
+theorem expectRaw_toC (d : ℕ) (ψ : Array GQ) (P : Mat) (hψ : ψ.size = d) (hP : P.Sq d) :
+    (expectRaw ψ P).toC = VqeLemmas.ev (vecC d ψ) (P.toM d) := by
+  unfold expectRaw
+  split
+  · exact expectLF_toC d ψ P hψ hP.2
+  · exact expectRF_toC d ψ P hψ hP.1
 
 theorem expectSpec_toC (d : ℕ) (ψ : Array GQ) (P : Mat) (hψ : ψ.size = d) :
     (expectSpec ψ P).toC = VqeLemmas.ev (vecC d ψ) (P.toM d) := by
@@ -217,8 +247,23 @@ theorem toM_zeros (d : ℕ) : (zeros d d).toM d = 0 := by
 
 theorem zeros_sq (d : ℕ) : (zeros d d).Sq d := ⟨rfl, rfl⟩
 
+/-- bridging facts over the generated exponent shape: the adjoint part is conjugate-transposed and enters with sign −1 -/
+theorem adjPart_eq (T : Mat) : adjPart T = T.adjoint := rfl
+theorem genSign_toC : (gqOfInts (QibGen.Vqe.genAdjointSign, 0)).toC = -1 := by
+  simp [gqOfInts, QibGen.Vqe.genAdjointSign, GQ.toC]
+
+theorem quccGenerator_sq (d : ℕ) (T : Mat) (hT : T.Sq d) : (quccGenerator T).Sq d := hT
+
 theorem toM_quccGenerator (d : ℕ) (T : Mat) (hT : T.Sq d) : (quccGenerator T).toM d = T.toM d - (T.toM d)ᴴ := by
-  rw [quccGenerator, toM_sub d _ _ hT, toM_adjoint d T hT]
+  ext i j
+  obtain ⟨hn, hm⟩ := hT
+  have ha := toM_adjoint d T ⟨hn, hm⟩
+  simp only [Mat.toM, quccGenerator, Matrix.sub_apply]
+  rw [Mat.get_ofFn _ (by rw [hn]; exact i.isLt) (by rw [hm]; exact j.isLt), GQ.toC_add, GQ.toC_mul, genSign_toC, adjPart_eq]
+  have := congrFun (congrFun ha i) j
+  simp only [Mat.toM] at this
+  rw [this]
+  ring
 
 end Vqe
 
